@@ -543,6 +543,9 @@ def enumerate_cases(tier, seed):
         pipe += s3.partner_cases("AMBER", s3.PARTNERS[:6],
                                  hosts=["ASN", "GLN", "HIS", "SER", "ASP",
                                         "TYR"], dirs=range(0, 14, 2))
+    # spatial neighbourhoods of every residue of the bundled structures
+    pipe += s3.hood_cases("AMBER", ["1AJJ.pdb", "1BX8.pdb", "cterm_hid.pdb"]
+                          if tier == "quick" else None)
     for d in pipe:
         d = dict(d)
         d["mode"] = "pipeline"
